@@ -4,6 +4,7 @@ import Comdex.Lemmas.AmmFindPriceBook
 import Comdex.Lemmas.AmmPool
 import Comdex.Lemmas.AmmRanged
 import Comdex.Lemmas.AmmKeeper
+import Comdex.Lemmas.AmmPlace
 /-!
 # C05 — Batch matching conserves coins and never fills an order beyond its limits
 
@@ -906,6 +907,42 @@ theorem order_within_amount_after_batch (prec : Nat) (hprec : 10 ^ prec < 2 ^ 30
 theorem order_within_amount_step (prec : Nat) (hprec : 10 ^ prec < 2 ^ 300 - 1) (s : KState) (now : Int) (h : KInv prec s) :
     KInv prec (batchStep s prec now) :=
   batchStep_inv prec hprec s now h
+
+/-- **`PlaceOk` is what `ValidateMsgLimitOrder` establishes, for BOTH directions**: a message price between `LowestTick` and
+`HighestTick` (the check of swap.go:59-68 for a pair without last price), fitted to the grid — `PriceToDownTick` for a buy,
+`PriceToUpTick` for a sell — is a positive tick whose index does not exceed the highest tick's -/
+theorem place_ok_limit_order (prec : Nat) (hprec : 10 ^ prec < 2 ^ 300 - 1) (d : Dir) (x : Nat) (amount : Int) (ha : 0 ≤ amount)
+    (h1 : lowestTick prec ≤ (x : Int)) (h2 : (x : Int) ≤ highestTick prec) : PlaceOk prec d (x : Int) amount := by
+  have h1' : 10 ^ prec ≤ x := by unfold lowestTick at h1; exact_mod_cast h1
+  have h2' : x ≤ T prec (hiIdx prec) := by rw [highestTick_eq prec hprec] at h2; exact_mod_cast h2
+  cases d with
+  | buy =>
+    apply placeOk_buy prec x amount ha h1'
+    have := (grid_cell prec (2 ^ 300 - 1) (by omega)).2.1
+    unfold hiIdx at h2'
+    omega
+  | sell => exact placeOk_sell prec x amount ha h1' h2'
+
+/-- `order_within_amount` with the assumption on the placed orders discharged: every limit order whose message price lies between
+the lowest and the highest tick and whose amount is not negative -/
+theorem order_within_amount_validated (prec : Nat) (hprec : 10 ^ prec < 2 ^ 300 - 1) (bs : List Batch)
+    (hok : ∀ b ∈ bs, ∀ x ∈ b.placed, 0 ≤ x.2.2.1 ∧ ∃ n : Nat, x.2.1 = (n : Int) ∧ lowestTick prec ≤ (n : Int) ∧ (n : Int) ≤ highestTick prec) :
+    ∀ so ∈ (runBatches KState.init prec bs).orders,
+      0 ≤ so.openAmt ∧ so.openAmt ≤ so.amount ∧ 0 ≤ so.remaining ∧ so.remaining ≤ so.offer ∧
+      monOrderWithinAmount so = true ∧ monOrderLimit so = true := by
+  intro so hso
+  have h := order_within_amount prec hprec bs (by
+    intro b hb x hx
+    obtain ⟨ha, n, hn, l1, l2⟩ := hok b hb x hx
+    rw [hn]
+    exact place_ok_limit_order prec hprec x.1 n x.2.2.1 ha l1 l2) so hso
+  exact ⟨h.1, h.2.1, h.2.2.1, h.2.2.2.1, h.2.2.2.2.2.2.1, h.2.2.2.2.2.2.2⟩
+
+/-- non-vacuity: at precision 4 the message price 1.00005 of a sell order is fitted up to the tick 1.0001 (index 90001 + …) -/
+example : priceToUpTick 1000050000000000000 4 = 1000100000000000000 ∧ priceToDownTick 1000050000000000000 4 = 1000000000000000000 ∧
+    lowestTick 4 ≤ 1000050000000000000 ∧ (1000050000000000000 : Int) ≤ highestTick 4 := by
+  set_option maxRecDepth 100000 in
+  refine ⟨by decide, by decide, by decide, by decide⟩
 
 /-- non-vacuity, and the scenario of the seeded edit s64 on the model: last price 1.0; a buy of 1000 @ 1.1 (offer 1100) is filled
 600 at 1.0 (400 open, 500 quote left — which would buy 454 at 1.1); against a later sell of 1000 @ 1.0 it takes exactly its 400
